@@ -678,7 +678,9 @@ func LoadTolerant[C any](maxLate time.Duration, prop func(C, *Obs) error) func(C
 			// a machine that is oversubscribed several times over (1-minute load average above 4 runnable tasks per
 			// core) starves goroutines for hundreds of milliseconds although timers still fire on time: such an
 			// attempt counts as disturbed as well
-			if overloaded() && late <= maxLate {
+			// - but only for failures that look like a starved exchange (a transport-level failure code or a timeout in the
+			// message); a wrong header, body, count or tag is final whatever the load
+			if late <= maxLate && starvedSymptom.MatchString(err.Error()) && overloaded() {
 				late = maxLate + 1
 			}
 			if late <= maxLate && !timeoutSymptom.MatchString(err.Error()) {
@@ -710,5 +712,9 @@ func overloaded() bool {
 	v, err := strconv.ParseFloat(f[0], 64)
 	return err == nil && v > 4*float64(runtime.NumCPU())
 }
+
+// starvedSymptom: what an exchange that was starved of CPU looks like in a failure message: a non-zero net code, a
+// sample without a protocol code, a timeout.
+var starvedSymptom = regexp.MustCompile(`\bnet[= ][1-9]\d*\b|\bproto[= ]0\b|(?i)time[d ]?out|deadline exceeded`)
 
 var timeoutSymptom = regexp.MustCompile(`net=110\b|\b504\b|(?i)time[d ]?out|deadline exceeded`)
